@@ -19,9 +19,9 @@ theorem seg_pos_inj {exts : Array Ext} {lo j1 j2 g : Nat} {e1 e2 : Ext} (h1 : lo
   apply Decidable.byContradiction; intro hne
   rcases Nat.lt_or_gt_of_ne hne with h | h
   · have := seg_mem_ne (hi := j2) h1 h he1 hf1
-    rw [this] at hlen; simp at hlen; omega
+    rw [this] at hlen; simp at hlen
   · have := seg_mem_ne (hi := j1) h2 h he2 hf2
-    rw [this] at hlen; simp at hlen; omega
+    rw [this] at hlen; simp at hlen
 
 theorem takeTotal_eq (R : Nat) : ∀ (rs : List (List Ext)), (∀ r ∈ rs, R ≤ r.length) → takeTotal R rs = R * rs.length := by
   intro rs
